@@ -7,7 +7,7 @@ CLASSES = [
               fields={"_timestamp": "int", "_commit_hash": "Opt[str]", "_has_uncommitted_changes": "bool"}),
     ClassDecl("VersionIndex", file="execution/version_index.py", fields={"_last_timestamp": "int"}),
     ClassDecl("BaseException", exception=True, bases=[]),
-    ClassDecl("ConductorError", exception=True, bases=["BaseException"],
+    ClassDecl("ConductorError", file="errors/base.py", exception=True, bases=["BaseException"],
               ghost={"file_context_set": "bool", "extra_context_set": "bool"}),
     ClassDecl("ConductorAbort", exception=True, bases=["ConductorError"]),
 ]
@@ -15,5 +15,16 @@ CLASSES = [
 LOGIC = Logic(funcs={}, axioms=[], macros={}, globals={})
 
 CONTRACTS = [
+    Contract("errors/base.py::ConductorError.printable_message", params={"omit_file_context": "bool"}, returns="str", extern=True,
+             trusted_reason="message rendering (cosmetic)"),
+    Contract("errors/base.py::ConductorError.add_extra_context", params={"context_string": "str"}, returns="ConductorError", extern=True,
+             modifies=["ConductorError.extra_context_set@self"], ensures=["result == self", "self.extra_context_set"],
+             trusted_reason="setter returning self"),
+    Contract("errors/base.py::ConductorError.add_file_context", params={"file_path": "any", "line_number": "any"}, returns="ConductorError", extern=True,
+             modifies=["ConductorError.file_context_set@self"], ensures=["result == self", "self.file_context_set"],
+             trusted_reason="setter returning self"),
+    Contract("errors/base.py::ConductorError.add_file_context_if_missing", params={"file_path": "any", "line_number": "any"}, returns="ConductorError", extern=True,
+             modifies=["ConductorError.file_context_set@self"], ensures=["result == self", "self.file_context_set"],
+             trusted_reason="setter returning self"),
     Contract("ext::time.time", returns="float", trusted_reason="the clock is an arbitrary value (may repeat, may go backwards)"),
 ]
